@@ -369,6 +369,46 @@ def clause_e2(rep, F, rule="indentation-blanks-pass-the-tab-test"):
     rep.floor("blank-run consumers in the two indentation loops", n, 2)
 
 
+def clause_g(rep, F, rule="fetch-yields-a-token"):
+    """The parser rejects ill-formed streams by the kind of the next token ('a directive must be followed by ---', 'a directive needs a
+    preceding ...', 'expected , or ]', ...).  Those rejections exist only if what the scanner saw is in the token stream: every fetch_*
+    function the dispatcher hands the cursor to queues at least one token on every path that returns Ok.  A fetcher that consumes a
+    construct and queues nothing (a reserved directive skipped silently) makes the construct invisible to every check behind it."""
+    S_ = SCANNER + "::"
+    fnt = F.fn(S_ + "fetch_next_token")
+    fetchers = sorted({ck for bb, t, ck, fr in fnt.calls() if ck and ck.startswith(S_ + "fetch_")} | {S_ + "fetch_stream_start", S_ + "fetch_stream_end"})
+    PUSH = ("VecDeque::push_back", "VecDeque::insert", "VecDeque::push_front")
+
+    def pushing(ck, depth=0):
+        if not ck:
+            return False
+        if ck.endswith(PUSH):
+            return True
+        g = F.fns.get(ck)
+        if g is None or depth > 2 or not ck.startswith(S_):
+            return False
+        # a helper counts when every Ok path of it queues a token (insert_token, roll_indent are conditional: they do not count)
+        return _always_pushes(g, depth + 1)
+
+    def _always_pushes(g, depth):
+        pb = {bb for bb, t, ck, fr in g.calls() if pushing(ck, depth)}
+        if not pb:
+            return False
+        return cfg.flag_reach(g, 0, cfg.return_blocks(g), avoid=pb | cfg.err_sink_blocks(g)) is None
+    n = 0
+    for fk in fetchers:
+        f = F.fns.get(fk)
+        if f is None:
+            continue
+        n += 1
+        pb = {bb for bb, t, ck, fr in f.calls() if pushing(ck)}
+        esc = cfg.flag_reach(f, 0, cfg.return_blocks(f), avoid=pb | cfg.err_sink_blocks(f)) if pb else [0]
+        rep.check(esc is None, rule, short(fk), "%s can return Ok without having queued a token: what it consumed leaves no trace for the parser, whose rejections "
+                  "(directive without '---', directive after an open document, missing separators) hang on the token kinds" % f.name, site=f.span,
+                  detail={"escaping_path": esc})
+    rep.floor("fetch functions reached from the dispatcher", n, 14)
+
+
 def _flow_guard(f, bi):
     t = f.blocks[bi]["term"]
     if t["k"] != "switch" or t["dty"] != "bool" or t["vals"] != [0]:
@@ -473,6 +513,7 @@ def run(tier):
     clause_a(rep, F)
     clause_e(rep, F)
     clause_e2(rep, F)
+    clause_g(rep, F)
     clause_f(rep, F)
     clause_b(rep, F)
     clause_c(rep, F)
